@@ -10,7 +10,10 @@
 set -u
 SEED="$(realpath "$1")"; ID="$2"; TIER="${3:-quick}"
 export GOFLAGS=-mod=mod GOPROXY=off GOSUMDB=off GOTOOLCHAIN=local
-D=$(mktemp -d /var/tmp/verif-seed.XXXXXX)
+# one scratch slot per property (not a random name): the Go build cache is keyed by path, and
+# a fresh path per evaluation adds about half a gigabyte of cache entries each time
+D=/var/tmp/verif-seed.$ID
+rm -rf "$D"; mkdir -p "$D" || exit 2
 trap 'rm -rf "$D"' EXIT
 rsync -a --exclude .git --exclude .seed /repo/ "$D/"
 # where does the demo go? first "cp .seed/N/demo_test.go <dest>" in the README, else look at its package clause
